@@ -275,6 +275,28 @@ def r17_3(ctx):
                     if isinstance(e, Mut) and e.attr == "input_task_list" and e.op == "remove" and e.args and isinstance(e.args[0], ListV) \
                             and e.args[0].items and e.args[0].items[0] == lp.var:
                         ok_unlink = True
+        # a path on which the clean-up found its record empty (`if not tracked: return`, `if len(tracked) == 0: return`) has
+        # nothing to remove
+        def says_empty(c):
+            t = c.node.test if isinstance(c.node, ast.If) else None
+            neg = False
+            while isinstance(t, ast.UnaryOp) and isinstance(t.op, ast.Not):
+                neg, t = not neg, t.operand
+            name = None
+            if isinstance(t, ast.Name):
+                name, empty_when = t.id, False          # `if tracked:` is true when non-empty
+            elif isinstance(t, ast.Compare) and len(t.ops) == 1 and isinstance(t.left, ast.Call) and isinstance(t.left.func, ast.Name) and t.left.func.id == "len" \
+                    and len(t.left.args) == 1 and isinstance(t.left.args[0], ast.Name) and isinstance(t.comparators[0], ast.Constant) and t.comparators[0].value == 0:
+                name = t.left.args[0].id
+                empty_when = {ast.Eq: True, ast.LtE: True, ast.NotEq: False, ast.Gt: False}.get(type(t.ops[0]))
+            if name is None or empty_when is None:
+                return False
+            if "$" + ren.get((c.func.qualname, name), name) not in tracked_names:
+                return False
+            return (c.truth != neg) == empty_when
+        if tracked_names and any(isinstance(c, Cond) and says_empty(c) for c in flatten(top)):
+            ctx.instance(construct(f, f"cleanup-{ex[0] if ex else 'normal'}:record-empty"))
+            continue
         if tracked_names:
             ctx.instance(construct(f, f"cleanup-{ex[0] if ex else 'normal'}"))
             if not ok_rm:
